@@ -34,7 +34,10 @@
 
 /* ------------------------------------------------------------ parameters */
 
-typedef enum { SCP_PREDEF, SCP_SCALAR, SCP_UNKNOWN, SCP_CORR } sc_pkind_t;
+typedef enum { SCP_PREDEF, SCP_SCALAR, SCP_UNKNOWN, SCP_CORR, SCP_VECTOR }
+    sc_pkind_t;
+
+#define SC_MAXKNOT	16	/* points of a known vector parameter */
 
 typedef struct sc_par {
     sc_pkind_t kind;
@@ -45,6 +48,13 @@ typedef struct sc_par {
     int vector_guess;		/* guess given as a vector parameter */
     double complex truth[SC_MAXF];
     double complex guess[SC_MAXF];
+    /* truth as a function of frequency (sc_truth_at), so that the same
+     * parameters can be measured again on another frequency grid */
+    double complex t0, drift;	/* unknown: t0 + drift (f / 1 GHz - 1) */
+    double v_mag, v_turn, v_slope;	/* known vector: see sc_truth_at */
+    int vn;			/* known vector: points, own grid */
+    double vf[SC_MAXKNOT];
+    double complex vv[SC_MAXKNOT];
 } sc_par_t;
 
 /* ------------------------------------------------------------- standards */
@@ -157,6 +167,7 @@ static int sc_scalar(sc_scn_t *sc, double complex v)
     int i = sc_add_par(sc);
 
     sc->par[i].kind = SCP_SCALAR;
+    sc->par[i].t0 = v;
     for (int k = 0; k < SC_MAXF; ++k)
 	sc->par[i].truth[k] = v;
     return i;
@@ -172,6 +183,8 @@ static int sc_unknown(sc_scn_t *sc, vt_rng_t *rng, double complex truth,
     double complex off = ets_cunit_disc(rng, radius);
 
     sc->par[i].kind = SCP_UNKNOWN;
+    sc->par[i].t0 = truth;
+    sc->par[i].drift = drift;
     sc->par[i].vector_guess = vector_guess && sc->nf > 1;
     for (int k = 0; k < SC_MAXF; ++k) {
 	sc->par[i].truth[k] = truth + drift * k;
@@ -198,6 +211,105 @@ static int sc_corr(sc_scn_t *sc, int other, double sigma)
 	sc->par[i].guess[k] = sc->par[other].guess[k];
     }
     return i;
+}
+
+/*
+ * sc_truth_at: true value of parameter i at frequency f.  Unknowns drift
+ * linearly with frequency; a known vector parameter is a spiral
+ * v_mag (1 - v_slope x) exp(j v_turn x), x = f / 1 GHz, i.e. strongly
+ * frequency dependent; correlated parameters follow their correlate.
+ */
+static double complex sc_truth_at(const sc_scn_t *sc, int i, double f)
+{
+    const sc_par_t *p = &sc->par[i];
+    const double x = f / 1.0e9;
+
+    switch (p->kind) {
+    case SCP_UNKNOWN:
+	return p->t0 + p->drift * (x - 1.0);
+    case SCP_CORR:
+	return sc_truth_at(sc, p->other, f);
+    case SCP_VECTOR:
+	return p->v_mag * (1.0 - p->v_slope * x) *
+	    (cos(p->v_turn * x) + I * sin(p->v_turn * x));
+    case SCP_PREDEF:
+	return p->truth[0];
+    default:
+	return p->t0;
+    }
+}
+
+/*
+ * sc_known_vector: known parameter given to the library as a vector on its
+ * own grid.  The grid holds the listed frequencies (every frequency the
+ * parameter will ever be evaluated at: the library interpolates between
+ * points by a rational function the manual does not pin down, at the points
+ * it returns the given values) plus points below, between and above.
+ */
+static int sc_known_vector(sc_scn_t *sc, vt_rng_t *rng, const double *fs,
+	int nfs)
+{
+    int i = sc_add_par(sc);
+    sc_par_t *p = &sc->par[i];
+    double all[SC_MAXKNOT];
+    int n = 0;
+
+    p->kind = SCP_VECTOR;
+    p->v_mag = 0.5 + 0.4 * vt_unit(rng);
+    p->v_turn = (1.0 + 1.5 * vt_unit(rng)) * (vt_below(rng, 2) ? 1 : -1);
+    p->v_slope = 0.05 + 0.1 * vt_unit(rng);
+    all[n++] = 0.25e9;
+    all[n++] = 0.6e9;
+    for (int k = 0; k < nfs && n < SC_MAXKNOT - 2; ++k)
+	all[n++] = fs[k];
+    all[n++] = 3.7e9;
+    all[n++] = 4.5e9;
+    /* sort, drop duplicates */
+    for (int a = 1; a < n; ++a) {
+	double v = all[a];
+	int b = a - 1;
+
+	while (b >= 0 && all[b] > v) {
+	    all[b + 1] = all[b];
+	    --b;
+	}
+	all[b + 1] = v;
+    }
+    p->vn = 0;
+    for (int a = 0; a < n; ++a) {
+	if (p->vn == 0 || all[a] > p->vf[p->vn - 1] * (1.0 + 1e-9))
+	    p->vf[p->vn++] = all[a];
+    }
+    for (int a = 0; a < p->vn; ++a)
+	p->vv[a] = sc_truth_at(sc, i, p->vf[a]);
+    for (int k = 0; k < SC_MAXF; ++k)
+	p->truth[k] = sc_truth_at(sc, i, sc->f[k]);
+    return i;
+}
+
+/*
+ * sc_retune: the same standards and parameters on another frequency grid
+ * (another instrument state: new error networks); truths re-evaluated.
+ */
+static void sc_retune(sc_scn_t *sc, vt_rng_t *rng, int nf, const double *f,
+	double strength)
+{
+    etsim_t e0, e1;
+
+    sc->nf = nf;
+    for (int k = 0; k < nf; ++k)
+	sc->f[k] = f[k];
+    ets_random(&e0, sc->type, sc->rows, sc->cols, rng, strength);
+    ets_random(&e1, sc->type, sc->rows, sc->cols, rng, strength);
+    for (int k = 0; k < nf; ++k)
+	ets_at_frequency(&e0, &e1, nf > 1 ? 0.3 * k / (nf - 1) : 0.0,
+		&sc->e[k]);
+    for (int i = 0; i < sc->npar; ++i) {
+	if (sc->par[i].kind == SCP_PREDEF)
+	    continue;
+	for (int k = 0; k < nf; ++k)
+	    sc->par[i].truth[k] = sc_truth_at(sc, i, f[k]);
+    }
 }
 
 static sc_std_t *sc_new_std(sc_scn_t *sc, sc_shape_t shape, int sp,
@@ -358,6 +470,12 @@ static int sc_make_params(sc_scn_t *sc, vnacal_t *vcp)
 	    break;
 	case SCP_SCALAR:
 	    p->handle = LIB(vnacal_make_scalar_parameter(vcp, p->truth[0]));
+	    if (p->handle < 0)
+		return -1;
+	    break;
+	case SCP_VECTOR:
+	    p->handle = LIB(vnacal_make_vector_parameter(vcp, p->vf, p->vn,
+			p->vv));
 	    if (p->handle < 0)
 		return -1;
 	    break;
